@@ -372,3 +372,60 @@ Proof.
   repeat split; try assumption; try lia; try lra.
 
 Qed.
+
+(** * Codes: strict order, hence the integer comparison of codes IS the float comparison *)
+Local Close Scope R_scope.
+Local Open Scope Z_scope.
+Lemma magv_strict a1 a2 : 0 <= a1 < a2 -> a2 < 2047 * B52 -> (magv a1 < magv a2)%R.
+Proof.
+  intros [H0 H12] Hb. unfold magv, code_mant, code_exp.
+  assert (BP : 0 < B52) by (unfold B52; lia).
+  pose proof (Z.div_le_mono a1 a2 B52 BP ltac:(lia)) as Hd.
+  pose proof (Z.div_pos a1 B52 H0 BP) as Hd0.
+  pose proof (Z.mod_pos_bound a1 B52 BP) as M1. pose proof (Z.mod_pos_bound a2 B52 BP) as M2.
+  pose proof (Z.div_mod a1 B52 ltac:(lia)) as D1. pose proof (Z.div_mod a2 B52 ltac:(lia)) as D2.
+  destruct (Z.eq_dec (a1 / B52) (a2 / B52)) as [Eq|Ne].
+  - rewrite <- Eq. assert (a1 mod B52 < a2 mod B52) by nia.
+    apply Rmult_lt_compat_r. apply bpow_gt_0. apply IZR_lt.
+    destruct (a1 / B52 =? 0); lia.
+  - assert (Lt : a1 / B52 < a2 / B52) by lia.
+    replace (a2 / B52 =? 0) with false by lia.
+    apply Rlt_le_trans with (IZR B52 * bpow radix2 (a2 / B52 - 1075))%R.
+    2:{ apply Rmult_le_compat_r. apply bpow_ge_0. apply IZR_le. lia. }
+    change (IZR B52) with (bpow radix2 52).
+    destruct (a1 / B52 =? 0) eqn:Z1.
+    + apply Rlt_le_trans with (bpow radix2 52 * bpow radix2 (-1074))%R.
+      * apply Rmult_lt_compat_r. apply bpow_gt_0. change (bpow radix2 52) with (IZR B52). apply IZR_lt. lia.
+      * apply Rmult_le_compat_l. apply bpow_ge_0. apply bpow_le. lia.
+    + apply Rlt_le_trans with (bpow radix2 53 * bpow radix2 (a1 / B52 - 1075))%R.
+      * apply Rmult_lt_compat_r. apply bpow_gt_0. change (bpow radix2 53) with (IZR (2 * B52)). apply IZR_lt. lia.
+      * rewrite <- !bpow_plus. apply bpow_le. lia.
+Qed.
+
+Theorem code_val_strict c1 c2 : code_ok c1 -> code_ok c2 -> c1 < c2 -> (code_val c1 < code_val c2)%R.
+Proof.
+  unfold code_ok, code_val. intros H1 H2 H.
+  destruct (c1 <? 0) eqn:S1; destruct (c2 <? 0) eqn:S2.
+  - apply Ropp_lt_contravar. apply magv_strict; lia.
+  - pose proof (magv_pos (Z.abs c1) ltac:(lia) H1). pose proof (magv_nonneg (Z.abs c2) ltac:(lia)). lra.
+  - lia.
+  - apply magv_strict; lia.
+Qed.
+
+(** Python's float comparison of two times is the integer comparison of their codes *)
+Theorem code_order_iff c1 c2 : code_ok c1 -> code_ok c2 ->
+  (c1 <= c2 <-> (R_of (fdec c1) <= R_of (fdec c2))%R).
+Proof.
+  intros H1 H2. rewrite (proj1 (fdec_R c1 H1)), (proj1 (fdec_R c2 H2)). split.
+  - apply code_val_mono; assumption.
+  - intros L. destruct (Z_le_gt_dec c1 c2) as [Hle|Hgt]; [exact Hle|exfalso].
+    pose proof (code_val_strict c2 c1 H2 H1 ltac:(lia)). lra.
+Qed.
+
+Theorem code_eq_iff c1 c2 : code_ok c1 -> code_ok c2 ->
+  (c1 = c2 <-> R_of (fdec c1) = R_of (fdec c2)).
+Proof.
+  intros H1 H2. split; [intros ->; reflexivity|]. intros E.
+  pose proof (proj2 (code_order_iff c1 c2 H1 H2) ltac:(rewrite E; apply Rle_refl)).
+  pose proof (proj2 (code_order_iff c2 c1 H2 H1) ltac:(rewrite E; apply Rle_refl)). lia.
+Qed.
